@@ -158,7 +158,7 @@ def generate(run, tier):
     quick = tier == "quick"
     nmax = 9 if quick else 14
     total = 700 if quick else 5000
-    cases = [dict(c) for c in FIXED]
+    cases = []          # the FIXED hierarchies are in corpus/C03/fixed.json (run first by the runner)
     plan = [("iface", 0.40), ("rootexp", 0.15), ("mixed", 0.25), ("rebase", 0.20)]
     for stream, frac in plan:
         for _ in range(int(total * frac)):
